@@ -53,6 +53,9 @@ def run_engine_a_property(pid, tier, seed):
     }
     ht = 300 if tier == "quick" else 1200
     D.engine_a(rep, mods, ht, compile_violation=(pid != "C02"))
+    if pid == "C11":
+        # "sizes up to the 65534 limit": observed by compiling (rustc, not the solver)
+        D.base_case_compile(rep, P.c11_base_cases())
     if pid == "C01":
         # lemma: the run table every with-holes function trusts, with SYMBOLIC discriminants
         L1.engine_c(rep, 4 if tier == "quick" else 8, ht)
